@@ -222,6 +222,66 @@ func c02c(c *Ctx, v *variants.Variant) {
 		r.Check(okInstall && n == 1 && okRet, "C02-c", "T.restore:installs-argument", vn, v.Where(rs.Pos()), "p.pt = "+param+" (skipped only when the offsets are equal)", fmt.Sprintf("install=%t assignments=%d early-return-ok=%t", okInstall, n, okRet))
 	}
 	c02Read(c, v, "C02-c")
+	// the initial position: line 1, column 0, offset 0, width 0, and exactly one read() before the start rule
+	np := v.Func("", "newParser")
+	okInit := false
+	got := ""
+	if np != nil {
+		ast.Inspect(np.Body, func(n ast.Node) bool {
+			kv, ok := n.(*ast.KeyValueExpr)
+			if !ok || nospace(kv.Key) != "pt" {
+				return true
+			}
+			cl, ok := kv.Value.(*ast.CompositeLit)
+			if !ok {
+				return true
+			}
+			fields := map[string]string{}
+			var collect func(c *ast.CompositeLit, prefix string)
+			collect = func(c *ast.CompositeLit, prefix string) {
+				for _, e := range c.Elts {
+					if k, ok := e.(*ast.KeyValueExpr); ok {
+						if inner, ok := k.Value.(*ast.CompositeLit); ok {
+							collect(inner, prefix+nospace(k.Key)+".")
+						} else {
+							fields[prefix+nospace(k.Key)] = nospace(k.Value)
+						}
+					} else {
+						fields[prefix+"?"] = "positional"
+					}
+				}
+			}
+			collect(cl, "")
+			var ks []string
+			for k, val := range fields {
+				ks = append(ks, k+"="+val)
+			}
+			sort.Strings(ks)
+			got = strings.Join(ks, ",")
+			okInit = got == "position.line=1"
+			return false
+		})
+	}
+	pf := v.Func("parser", "parse")
+	reads, beforeStart := 0, false
+	if pf != nil {
+		var readPos, evalPos ast.Node
+		for _, ce := range callsIn(pf.Body) {
+			if _, isLit := ce.Fun.(*ast.FuncLit); isLit {
+				continue
+			}
+			switch callSel(ce) {
+			case "read":
+				reads++
+				readPos = ce
+			case "parseRuleWrap":
+				evalPos = ce
+			}
+		}
+		beforeStart = readPos != nil && evalPos != nil && readPos.Pos() < evalPos.Pos() && len(guardsOf(pf.Body, readPos.Pos())) == 0
+	}
+	r.Check(okInit && reads == 1 && beforeStart, "C02-c", "T.newParser/parse:initial-position", vn, "builder/static_code.go", "pt starts at line 1, col 0, offset 0; one unconditional read() before the start rule",
+		fmt.Sprintf("initial pt literal {%s}, %d read() calls in parse, before-start-rule=%t: every reported line/col/offset would be shifted", got, reads, beforeStart))
 }
 
 func keysOf(m map[string]bool) []string {
